@@ -68,6 +68,41 @@ def r6_interval_choice(rule, root=None):
                 rule.ok("Interval::%s: %s iff %s < %s (strict)" % (name, side, order[0], order[1]), file=IVAL, line=fn["ln"])
 
 
+
+FLOAT_RS = "fidget-core/src/types/float.rs"
+
+
+def r_scalar_choices(rule, root=None):
+    """f32 min / max / and / or choice functions: the value reported together with Left is the left operand itself
+    (`self`, bit for bit - and(-0.0, y) is -0.0), with Right the right operand: simplification replaces the clause
+    by exactly that operand"""
+    n = 0
+    for name in ("min_choice", "max_choice", "and_choice", "or_choice"):
+        cands = [f for f in A.fns(FLOAT_RS, root) if f["name"] == name and (f.get("_owner") or {}).get("self_ty") == "f32" and dict.get(f, "body")]
+        if len(cands) != 1:
+            rule.lost("fn %s of `impl FloatExt for f32`" % name)
+            continue
+        fn = cands[0]
+        ps = [A.binding_name(p["pat"]) for p in fn["sig"]["inputs"] if "pat" in p]
+        other = ps[0] if ps else "other"
+        seen = set()
+        for leaf, cs in A.result_cases(A.inline_lets_deep(fn["body"])):
+            l = A.strip(leaf)
+            if l.get("k") != "Tuple" or len(l["elems"]) != 2:
+                continue
+            val, ch = str(A.ftxt(l["elems"][0])), str(A.ftxt(l["elems"][1]))
+            want = {"Choice::Left": "self", "Choice::Right": other}.get(ch)
+            if want is None:
+                continue
+            seen.add(ch)
+            if val == want:
+                n += 1
+                rule.ok("f32::%s: %s comes with `%s`" % (name, ch, want), file=FLOAT_RS, line=fn["ln"])
+            else:
+                rule.bad("f32|%s|%s" % (name, ch.split("::")[-1]), "f32::%s reports %s together with the value `%s`; the simplified tape computes `%s` there, which differs in the bits of a zero (and(-0.0, y) must stay -0.0)" % (name, ch, val, want), A.where(fn))
+        if seen != {"Choice::Left", "Choice::Right"}:
+            rule.bad("f32|%s|cases" % name, "f32::%s must have a Left and a Right result (found %s)" % (name, sorted(seen)), A.where(fn))
+
 def run(ctx):
     r = ctx.rule("R1", "simplify consumes exactly one choice per choice op on every path", 52 + 1)
     ctx.guarded(r, lambda rule: S.r1_choice_consumption(rule))
@@ -124,6 +159,8 @@ def run(ctx):
 
     r = ctx.rule("R10", "a decided choice op is its selected operand for every value type: Grad min / max / and / or return that operand whole (value and derivatives), so a simplified tape has the original's gradient", 14)
     ctx.guarded(r, C05_.r3_piecewise)
+    r = ctx.rule("R10f", "the f32 choice functions return the selected operand itself with Left / Right (bit for bit, the sign of a zero included)", 8)
+    ctx.guarded(r, r_scalar_choices)
     # a decided `and` / `or` is replaced by one operand because the traced evaluator saw the other one's zero test come
     # out one way; every evaluator that later runs the parent or the child must apply the *same* zero test
     # (float ==: -0.0 is zero, NaN is not), or parent and child part ways exactly at such an operand
